@@ -17,7 +17,7 @@ CONSTANTS Shapes,     \* set of 3-sequences: cell counts of the 3-d meshes
           NVs,        \* set of component counts (subset of 1..4)
           MaskKinds,  \* subset of {"all", "none", "hole", "alt"}
           SubKinds,   \* subset of {0, 1, 2}: number of subregions
-          Reprs,      \* subset of {"bin", "txt", "xml"}
+          Reprs,      \* subset of {"bin", "bin8", "txt", "xml"}
           BadShapes,  \* cell counts of meshes that are not 3-d (conversion refused)
           AltLabels   \* BOOLEAN: also use the non-default label schemes
 
@@ -109,7 +109,8 @@ WriteVTK(f, r, savesub) == [kind |-> "vtk", repr |-> r, grid |-> Grid(f), labels
 LegacyFile(f) == [kind |-> "legacy", repr |-> "txt",
                   grid |-> [pts |-> [d \in 1 .. 3 |-> CentresAx(f.mesh, d)], data |-> f.vals],
                   labels |-> <<>>, sub |-> {}, side |-> FALSE]
-RelOf(r) == IF r = "txt" THEN "Dig10" ELSE "Same"
+RelOf(r)  == IF r = "txt" THEN "Dig10" ELSE "Same"
+FormOf(r) == IF r = "bin8" THEN "bin" ELSE r        \* 'bin8' is accepted as an alias of 'bin'
 
 (* Field.from_file on a file of the current layout *)
 ReadVTK(fl) ==
@@ -166,7 +167,7 @@ Write == \E r \in Reprs, s \in BOOLEAN :
          /\ (s \/ fld.subs # {})           \* save_subregions=False only matters with subregions
          /\ act' = <<"write", r, s>>
          /\ IF Is3D(fld) THEN /\ file' = WriteVTK(fld, r, s)
-                              /\ obs' = Ok([rel |-> RelOf(r)])
+                              /\ obs' = Ok([rel |-> RelOf(r), form |-> FormOf(r)])
                          ELSE /\ file' = file
                               /\ obs' = Rej
          /\ UNCHANGED fld
